@@ -15,7 +15,7 @@ import (
 	"github.com/repustate/go-cdb/zzverif/nd"
 )
 
-//verif:harness H16_find property=C16 native=no quick=n=1,maxk=1,maxv=1,tset=0;n=2,maxk=1,maxv=1,tset=0;n=3,maxk=1,maxv=0,tset=1 thorough=n=1,maxk=2,maxv=1,tset=0;n=2,maxk=2,maxv=1,tset=0;n=3,maxk=1,maxv=1,tset=0;n=3,maxk=2,maxv=0,tset=1;n=4,maxk=1,maxv=0,tset=2
+//verif:harness H16_find property=C16 native=no quick=n=1,maxk=1,maxv=1,tset=0;n=2,maxk=1,maxv=1,tset=0;n=3,maxk=1,maxv=0,tset=1 thorough=n=1,maxk=2,maxv=1,tset=0;n=2,maxk=2,maxv=1,tset=0
 //verif:subst H16_find github.com/dgryski/go-spooky.Hash32 verifOracleHash
 //verif:harness H16_dump property=C16 native=no quick=n=1,maxk=1,maxv=1,tset=0;n=2,maxk=1,maxv=1,tset=1 thorough=n=2,maxk=2,maxv=1,tset=0;n=3,maxk=1,maxv=1,tset=1
 //verif:subst H16_dump github.com/dgryski/go-spooky.Hash32 verifOracleHash
